@@ -5,7 +5,7 @@ python3 - <<'EOP'
 import json
 s=json.load(open('/dev/shm/e2dev/out.json'))
 f=s['found'][0]
-json.dump(dict(property="C32",profile="default",tier="quick",seed=0,first=0,stride=1,max_runs=1,budget_s=0,out="/dev/shm/e2dev/rep.json",scratch="/dev/shm/e2dev/scratch",replay_tape=f['tape'] or [0],replay_seed=f['run_seed'],shrink_budget=0),open('/dev/shm/e2dev/repjob.json','w'))
+json.dump(dict(property="C22",profile="default",tier="quick",seed=0,first=0,stride=1,max_runs=1,budget_s=0,out="/dev/shm/e2dev/rep.json",scratch="/dev/shm/e2dev/scratch",replay_tape=f['tape'] or [0],replay_seed=f['run_seed'],shrink_budget=0),open('/dev/shm/e2dev/repjob.json','w'))
 EOP
 rm -f rep.json
 env GOMAXPROCS=1 GODEBUG=asyncpreemptoff=1 GORACE="log_path=$D/race halt_on_error=0 exitcode=0" VERIF_RACE_LOG=$D/race VERIF_JOB=$D/repjob.json /verif/.build/e2-dev.test -test.run '^TestWorker$' -test.timeout 300s > $D/repstdout.txt 2>&1
